@@ -19,10 +19,16 @@ NV = 12
 NF = 12
 
 
-def _val(s, V):
+def _val(s, V, S=None):
     if isinstance(s, str) and s[0] == "v" and s[1:].isdigit():
         return V[int(s[1:])]
+    if isinstance(s, str) and s[0] == "s" and s[1:].isdigit():
+        return S[int(s[1:])]
     return s  # constant
+
+
+def uses_strings(T) -> bool:
+    return any(isinstance(e[1], str) and e[1][0] == "s" and e[1][1:].isdigit() for e in T.get("ctx", []))
 
 
 def _flag(s, F):
@@ -31,7 +37,7 @@ def _flag(s, F):
     return F[int(s[1:])]
 
 
-def instantiate(T: Dict[str, Any], V, F):
+def instantiate(T: Dict[str, Any], V, F, S=None):
     """-> (ref_nodes, ref_data, ctx0) with cfg dicts decided under the (possibly symbolic) flags."""
     d = T["data"]
     if d[0] == "none":
@@ -43,7 +49,7 @@ def instantiate(T: Dict[str, Any], V, F):
     ctx0: Dict[str, Any] = {}
     for key, vs, fs in T.get("ctx", []):
         if _flag(fs, F):
-            ctx0[key] = _val(vs, V)
+            ctx0[key] = _val(vs, V, S)
     nodes = []
     for nd in T["nodes"]:
         if nd[0] in ("comp", "slice"):
@@ -175,7 +181,7 @@ def length1() -> List[Dict[str, Any]]:
     T.append(_t("1.CpBad", INT, [("a", "v1", "f0")], [("comp", "CpBad", [])]))
     T.append(_t("1.rename", INT, [("a", "v1", "f0"), ("b", "v2", "f1")], [("rename", "a", "b")]))
     T.append(_t("1.delete", INT, [("a", "v1", "f0"), ("b", "v2", "f1")], [("delete", "a")]))
-    T.append(_t("1.template", INT, [("a", "v1", "f0"), ("b", "v2", "f1")], [("template", ["a", "b"], "c")]))
+    T.append(_t("1.template", INT, [("a", "s0", "f0"), ("b", "s1", "f1")], [("template", ["a", "b"], "c")]))
     T.append(_t("1.slice.OpAdd", COLL, [("addend", "v1", "f0")], [("slice", "OpAdd", [("addend", "v2", "f1")])]))
     T.append(_t("1.slice.OpAddDef", COLL, [("addend", "v1", "f0")], [("slice", "OpAddDef", [("addend", "v2", "f1")])]))
     T.append(_t("1.slice.PrParam", COLL, [("offset", "v1", "f0")], [("slice", "PrParam", [("offset", "v2", "f1")], "out")]))
@@ -212,11 +218,11 @@ def curated() -> List[Dict[str, Any]]:
     T.append(_t("c.subclass-ok", INT, [], [("comp", "OpSub", []), ("comp", "CpSum", [("a", "v1", None)]), ("comp", "OpAddDef", [])]))
     # payload source colliding with the initial context; source then ops then sink
     T.append(_t("c.psrc-chain", NONE, [("a", "v1", "f0"), ("value", "v2", "f1")], [("comp", "PSrc", [("value", "v3", "f2")]), ("comp", "OpTwo", []), ("comp", "Snk", [])]))
-    T.append(_t("c.src-template-sink", NONE, [("b", "v1", "f0")], [("comp", "SrcD", []), ("comp", "PrVal", [], "a"), ("template", ["a", "b"], "c"), ("comp", "PSnk", [])]))
+    T.append(_t("c.src-template-sink", NONE, [("b", "s0", "f0"), ("d", "s1", "f1")], [("comp", "SrcD", []), ("comp", "PrVal", [], "a"), ("rename", "d", "a"), ("template", ["a", "b"], "c"), ("comp", "PSnk", [])]))
     T.append(_t("c.source-midway", INT, [], [("comp", "OpAddDef", []), ("comp", "SrcD", []), ("comp", "OpAddDef", [])]))
     T.append(_t("c.probe-chain", INT, [("offset", "v1", "f0")], [("comp", "PrReq", [], "offset"), ("comp", "PrReq", [], "offset"), ("comp", "PrParam", [], "out")]))
     T.append(_t("c.cp-feeds-op", INT, [("a", "v1", "f0"), ("b", "v2", "f1")], [("comp", "CpSum", []), ("rename", "out", "factor"), ("comp", "OpAff", [])]))
-    T.append(_t("c.template-missing", INT, [("a", "v1", "f0")], [("template", ["a", "b"], "c"), ("comp", "OpAddDef", [])]))
+    T.append(_t("c.template-missing", INT, [("a", "s0", "f0")], [("template", ["a", "b"], "c"), ("comp", "OpAddDef", [])]))
     T.append(_t("c.delete-twice", INT, [("a", "v1", "f0")], [("delete", "a"), ("delete", "a"), ("comp", "OpAddDef", [])]))
     return T
 
@@ -251,7 +257,6 @@ def _forms():
     F["rename:a>addend"] = ((lambda alloc: ("rename", "a", "addend")), ["a"])
     F["delete:addend"] = ((lambda alloc: ("delete", "addend")), ["addend"])
     F["delete:a"] = ((lambda alloc: ("delete", "a")), ["a"])
-    F["template:a,addend>offset"] = ((lambda alloc: ("template", ["a", "addend"], "offset")), ["a", "addend"])
     return F
 
 
